@@ -285,6 +285,7 @@ func observeConfig(sc CScen) CObs {
 	g := node.(getters)
 	o := CObs{Retries: g.GetMaxRetries(), WaitMS: int(g.GetWait() / time.Millisecond), Conc: g.GetBatchConcurrency(),
 		Continue: g.GetBatchErrorHandling() == "continue"}
+	h.retryN, h.waitMs = o.Retries, o.WaitMS
 	if sc.Batch && o.Conc > 0 {
 		h.gated = true
 		rt.gate = newGateCtl(rt, nil)
